@@ -127,12 +127,21 @@ def addPre (t : Tr) (p : Key × List String) : Tr :=
 def setTrailers (t : Tr) (h : Hdr) : Tr :=
   h.foldl addPre (t.map (fun p => (p.1, hget h (.plain p.1))))
 
+/-- `builder.whileBuilding(t.setTrailers)` (repair of finding F28, repository commit cdc69f7):
+the trailers are copied into `t.resp` under the builder's lock and only while the builder still
+holds the trace — once the trace was handed over nothing it refers to is written any more.
+(Before the repair `tryFinish` called `setTrailers` unconditionally: an operation that was ended
+early — request-body error, cancellation — after its response had started was written to when
+the handler returned; `[declare ["X-T"], writeHeader 200, closeReq, set X-T "1"]` was the
+witness.) -/
+def whileBuilding (s : St) : St :=
+  if s.live then { s with resp := { s.resp with trailer := setTrailers s.resp.trailer s.hdr } } else s
+
+def markFinished (s : St) : St := { s with finished := true }
+
 def tryFinish (c : Closer) (s : St) : St :=
   if s.finished then s
-  else
-    let s := writeHeader 200 s
-    let s := { s with finished := true, resp := { s.resp with trailer := setTrailers s.resp.trailer s.hdr } }
-    close c s
+  else close c (markFinished (whileBuilding (writeHeader 200 s)))
 
 def step (s : St) : Act → St
   | .set k v => { s with hdr := hset s.hdr k [v] }
